@@ -166,13 +166,19 @@ func main() {
 	}
 	rng := rand.New(rand.NewSource(*flagSeed))
 	type tcase struct {
-		f  int
-		in State
+		f    int
+		jump bool
+		in   State
 	}
 	var cases []tcase
 	for fi := range forms {
 		for k := 0; k < per; k++ {
-			cases = append(cases, tcase{fi, randState(rng)})
+			cases = append(cases, tcase{fi, false, randState(rng)})
+		}
+	}
+	for fi := range jumps {
+		for k := 0; k < per; k++ {
+			cases = append(cases, tcase{fi, true, randState(rng)})
 		}
 	}
 	cmd := exec.Command(*flagDriver)
@@ -186,7 +192,11 @@ func main() {
 	go func() {
 		w := bufio.NewWriterSize(stdin, 1<<20)
 		for i := range cases {
-			fmt.Fprintf(w, "step %d %s\n", cases[i].f, enc(&cases[i].in))
+			if cases[i].jump {
+				fmt.Fprintf(w, "jump %d %s\n", cases[i].f, enc(&cases[i].in))
+			} else {
+				fmt.Fprintf(w, "step %d %s\n", cases[i].f, enc(&cases[i].in))
+			}
 		}
 		w.Flush()
 		stdin.Close()
@@ -205,6 +215,17 @@ func main() {
 		}
 		c := cases[n]
 		n++
+		if c.jump {
+			f := jumps[c.f]
+			out := c.in
+			f.Fn(&out)
+			perForm[f.Text]++
+			got := strings.TrimSpace(sc.Text())
+			if got != fmt.Sprint(out.Flags[3]) && len(bads) < 40 {
+				bads = append(bads, bad{f.Text, fmt.Sprintf("jump %d %s", c.f, enc(&c.in)), fmt.Sprintf("taken=%d", out.Flags[3]), "taken=" + got, "jump taken"})
+			}
+			continue
+		}
 		f := forms[c.f]
 		out := c.in
 		f.Fn(&out)
@@ -251,8 +272,9 @@ func main() {
 		"evaluations":         len(cases),
 		"distinct_nontrivial": len(cases),
 		"instruction_forms":   len(forms),
+		"compare_jump_pairs":  len(jumps),
 		"states_per_form":     per,
-		"rule":                "every distinct register-to-register instruction form of the five kernel bodies and six ABI wrappers (text taken from the repository's .s files) x random machine states (biased: 0, -1, 2^32 and 2^63 neighbourhoods, small lengths, equal/adjacent compare operands, lanes from {0,0x80,0xFF,...}, equal vectors): hardware vs Asm.step; compared: the 11 general registers, XMM lanes (SSE forms) or YMM lanes (AVX forms), and the flags the model defines for the mnemonic",
+		"rule":                "(i) every distinct register-to-register instruction form of the five kernel bodies and six ABI wrappers (text taken from the repository's .s files) x random machine states (biased: 0, -1, 2^32 and 2^63 neighbourhoods, small lengths, equal/adjacent compare operands, lanes from {0,0x80,0xFF,...}, equal vectors): hardware vs Asm.step; compared: the 11 general registers, XMM lanes (SSE forms) or YMM lanes (AVX forms), and the flags the model defines for the mnemonic; (ii) every distinct (flag-setting instruction, conditional jump that immediately follows it in the source) pair x the same states: is the jump taken (SETcc of the jump's condition on the CPU vs Asm.step of the setter then of the jump)",
 		"samples":             []any{map[string]any{"form": forms[0].Text, "term": forms[0].Term}},
 		"disagreements":       len(bads),
 	}
@@ -264,7 +286,7 @@ func main() {
 		os.WriteFile(*flagOut, data, 0o644)
 	}
 	if len(bads) == 0 {
-		fmt.Printf("asmstep: %d instruction forms x %d states: Asm.step agrees with the hardware\n", len(forms), per)
+		fmt.Printf("asmstep: %d instruction forms and %d compare-jump pairs x %d states: Asm.step agrees with the hardware\n", len(forms), len(jumps), per)
 		return
 	}
 	path := "-"
